@@ -182,6 +182,7 @@ let rec handle (line : string) : string =
     "u=" ^ u ^ ";again=" ^ u ^ ";parent_stable=1"
   | ("KI" | "TI" | "PI") :: _ -> "s=SKIPPED;m=SKIPPED;c=SKIPPED"
   | "LI" :: _ -> "s=SKIPPED;m=SKIPPED;n=SKIPPED;c=SKIPPED"
+  | "YA" :: _ -> "SKIPPED"   (* typed trace built from constructors: the node-wise clause is evaluated on the implementation *)
   | "ZI" :: _ -> "SKIPPED"   (* implementation-only sink run on a very large mapping: the property's own clauses are evaluated on the implementation's answer *)
   | "Z" :: mx :: script ->
     let mx = n_of_dec (String.sub mx 4 (String.length mx - 4)) in
@@ -191,6 +192,7 @@ let rec handle (line : string) : string =
       | [i; "F"] -> (n_of_dec i, Fail)
       | [i; r] when String.length r > 1 && r.[0] = 'S' -> (n_of_dec i, Short (n_of_dec (String.sub r 1 (String.length r - 1))))
       | _ -> failwith ("bad sink token " ^ t) in
+    let script = List.filter (fun t -> t <> "vec") script in   (* a gathering sink: write_all never gathers *)
     let sk = { sk_max = mx; sk_script = List.map parse_resp script } in
     let cs = chunks (write_struct (Lazy.force st.rs)) in
     let (r, fin) = run_sink sk cs in
@@ -239,8 +241,8 @@ let rec handle (line : string) : string =
   | ["E1"; blk] ->
     let alpha = [| "a.A -> x:\n"; "b.B -> y:\n"; "a.C -> x:\n"; "    1:3:void m():10:12 -> f\n"; "    1:3:void n():20 -> f\n";
                    "    4:6:void m(int) -> f\n"; "    void p(int) -> f\n"; "    2:5:void q.Q.r():7:7 -> g\n"; "    int fld -> f\n";
-                   "# {\"id\":\"sourceFile\",\"fileName\":\"S.kt\"}\n"; "garbage\n"; "    5:4:void inv() -> g\n" |] in
-    let maxlen = 5 and k = 12 in
+                   "# {\"id\":\"sourceFile\",\"fileName\":\"S.kt\"}\n"; "garbage\n"; "    5:4:void inv() -> g\n"; "    # {\"id\":\"x\"}\n" |] in
+    let maxlen = 5 and k = 13 in
     let rec pow b e = if e = 0 then 1 else b * pow b (e - 1) in
     let sweep_string idx =
       let idx = ref idx and len = ref 0 and res = ref None and fin = ref false in
